@@ -750,6 +750,7 @@ impl World {
 pub struct Plan {
     remaining_ops: u32,
     next_id: u32,
+    af_decided: bool,
 }
 
 pub struct Hist {
@@ -792,6 +793,39 @@ impl Hist {
         }
         let (r0, r1, r2) = (rg[0], rg[1], rg[2]);
         format!("H init {} {} {} {} {} {} {} {} {} {} {}", ts, fee, proto, price, fa, fb, r0, r1, r2, 1000 + r.below(1000), r.below(3))
+    }
+
+    fn gen_af(&self, r: &mut Rng, w: &World) -> String {
+        let wp = w.wp();
+        let ts = wp.tick_spacing as u64;
+        let divisors: Vec<u64> = (1..=ts.min(65535)).filter(|d| ts % d == 0).collect();
+        let gs = r.pick(&divisors);
+        let filter = r.pick(&[1u64, 10, 30, 60, 300]);
+        let decay = filter + r.pick(&[1u64, 30, 600, 3000, 7200]);
+        let reduction = r.pick(&[0u64, 1, 500, 5000, 9000, 9999]);
+        let control = match r.below(6) {
+            0 => 0,
+            1 => 99999,
+            2 => r.pick(&[1u64, 10, 100]),
+            _ => r.pick(&[1000u64, 4000, 10000, 40000]),
+        };
+        let max_acc = match r.below(4) {
+            0 => (u32::MAX as u64) / gs,
+            1 => r.pick(&[0u64, 1, 9999, 10000, 10001]),
+            _ => r.pick(&[50_000u64, 350_000, 1_000_000]).min((u32::MAX as u64) / gs),
+        };
+        let major = 1 + r.below((ts * 88).min(65535));
+        let now = w.now;
+        let (last_ref, last_major, vol_ref, group_ref, vol_acc) = if r.chance(1, 3) {
+            (0u64, 0u64, 0u64, 0i64, 0u64)
+        } else {
+            // an arbitrary stored state satisfying the invariant (reference, accumulator <= max)
+            let cur_group = (wp.tick_current_index as i64).div_euclid(gs as i64);
+            let acc = if max_acc == 0 { 0 } else { r.below(max_acc + 1) };
+            let vr = if acc == 0 { 0 } else { r.below(acc + 1) };
+            (now.saturating_sub(r.pick(&[0u64, 1, 20, 100, 1000, 3599, 3600, 3601, 10000])), now.saturating_sub(r.pick(&[0u64, 5, 50, 500, 5000])), vr, cur_group + r.range_i(-30, 30), acc)
+        };
+        format!("H af {} {} {} {} {} {} {} {} {} {} {} {}", filter, decay, reduction, control, max_acc, gs, major, last_ref, last_major, vol_ref, group_ref, vol_acc)
     }
 
     fn gen_op(&self, r: &mut Rng, w: &World) -> String {
@@ -996,12 +1030,20 @@ impl Family for Hist {
             let mut p = self.plan.borrow_mut();
             p.remaining_ops = 40 + r.below(60) as u32;
             p.next_id = 0;
+            p.af_decided = false;
             drop(p);
             return self.gen_init(r);
         }
         self.plan.borrow_mut().remaining_ops -= 1;
         let wb = self.w.borrow();
-        self.gen_op(r, wb.as_ref().unwrap())
+        let w = wb.as_ref().unwrap();
+        if w.positions.is_empty() && w.af.is_none() && self.plan.borrow().next_id == 0 && !self.plan.borrow().af_decided {
+            self.plan.borrow_mut().af_decided = true;
+            if r.chance(1, 2) {
+                return self.gen_af(r, w);
+            }
+        }
+        self.gen_op(r, w)
     }
     fn run(&self, line: &str, ctx: &mut Ctx) -> String {
         let t = toks(line);
@@ -1052,6 +1094,32 @@ impl Family for Hist {
         } else {
             None
         };
+        // C14: a pool whose control factor is zero charges exactly like a static-fee pool
+        let static_twin: Option<(World, Result<String, String>)> = match (&w.af, t[1]) {
+            (Some(i), "swap") | (Some(i), "pswap") if i.constants.adaptive_fee_control_factor == 0 => {
+                let mut c = crate::hist_oracle::clone_world(w);
+                c.af = None;
+                let r = std::panic::catch_unwind(std::panic::AssertUnwindSafe(|| {
+                    if t[1] == "swap" {
+                        let n: usize = t[6].parse().unwrap();
+                        let starts: Vec<i32> = (0..n).map(|k| t[7 + k].parse().unwrap()).collect();
+                        c.do_swap(p64(t[2]), p128(t[3]), pb(t[4]), pb(t[5]), &starts).map(|x| x.0)
+                    } else {
+                        let n: usize = t[6].parse().unwrap();
+                        let entries: Vec<(i32, char)> = (0..n)
+                            .map(|k| {
+                                let (a, bb) = t[7 + k].split_once(':').unwrap();
+                                (a.parse().unwrap(), bb.chars().next().unwrap())
+                            })
+                            .collect();
+                        c.do_pswap(p64(t[2]), p128(t[3]), pb(t[4]), pb(t[5]), &entries).map(|x| x.0)
+                    }
+                }))
+                .unwrap_or_else(|_| Err("Panic".to_string()));
+                Some((c, r))
+            }
+            _ => None,
+        };
         let res: Result<String, String> = std::panic::catch_unwind(std::panic::AssertUnwindSafe(|| match t[1] {
             "open" => {
                 let id: u32 = t[2].parse().unwrap();
@@ -1090,6 +1158,33 @@ impl Family for Hist {
                 let starts: Vec<i32> = (0..n).map(|k| t[7 + k].parse().unwrap()).collect();
                 w.do_swap(p64(t[2]), p128(t[3]), pb(t[4]), pb(t[5]), &starts).map(|x| x.0)
             }
+            "af" => {
+                // H af filter decay reduction control maxVolAcc groupSize majorThreshold lastRef lastMajor volRef groupRef volAcc
+                let c = AdaptiveFeeConstants {
+                    filter_period: t[2].parse().unwrap(),
+                    decay_period: t[3].parse().unwrap(),
+                    reduction_factor: t[4].parse().unwrap(),
+                    adaptive_fee_control_factor: t[5].parse().unwrap(),
+                    max_volatility_accumulator: t[6].parse().unwrap(),
+                    tick_group_size: t[7].parse().unwrap(),
+                    major_swap_threshold_ticks: t[8].parse().unwrap(),
+                    ..Default::default()
+                };
+                let ts = w.wp().tick_spacing;
+                if !AdaptiveFeeConstants::validate_constants(ts, c.filter_period, c.decay_period, c.reduction_factor, c.adaptive_fee_control_factor, c.max_volatility_accumulator, c.tick_group_size, c.major_swap_threshold_ticks) {
+                    return Err("InvalidAdaptiveFeeConstants".to_string());
+                }
+                let v = AdaptiveFeeVariables {
+                    last_reference_update_timestamp: p64(t[9]),
+                    last_major_swap_timestamp: p64(t[10]),
+                    volatility_reference: t[11].parse().unwrap(),
+                    tick_group_index_reference: t[12].parse().unwrap(),
+                    volatility_accumulator: t[13].parse().unwrap(),
+                    ..Default::default()
+                };
+                w.af = Some(AdaptiveFeeInfo { constants: c, variables: v });
+                Ok(String::new())
+            }
             "pswap" => {
                 let n: usize = t[6].parse().unwrap();
                 let entries: Vec<(i32, char)> = (0..n)
@@ -1122,6 +1217,14 @@ impl Family for Hist {
                 ));
             }
             ctx.tag("c10_packaging_compared");
+        }
+        if let Some((c, r)) = static_twin {
+            let strip = |d: String| d.rsplit_once(" | A").map(|x| x.0.to_string()).unwrap_or(d);
+            // a failing timestamp check of the adaptive-fee variables has no static counterpart
+            if res.as_ref().err().map(|e| e.as_str()) != Some("InvalidTimestamp") && (r != res || strip(c.digest()) != strip(w.digest())) {
+                ctx.viol(format!("C14 control factor 0: the adaptive-fee pool gives {:?}, the same pool as a static-fee pool gives {:?}", res, r));
+            }
+            ctx.tag("c14_zero_control_compared");
         }
         crate::hist_oracle::after_op(w, &t, &res, &pre, ctx);
         match res {
